@@ -232,7 +232,7 @@ func (a *Act) intrinsic(name string, fv FuncV, args []Value) (Value, bool) {
 		p := args[0].(PtrV)
 		a.mayPanic(p.nilG, "nil mutex")
 		op := name[strings.LastIndex(name, ".")+1:]
-		if op == "Lock" && len(p.alts) == 1 {
+		if (op == "Lock" || op == "RLock") && len(p.alts) == 1 && !in.isHarnessFn(a.fn) {
 			k := fmt.Sprintf("%d:%v", p.alts[0].obj, p.alts[0].path)
 			if in.lockHist == nil {
 				in.lockHist = map[string]int{}
@@ -443,6 +443,10 @@ func (a *Act) intrinsic(name string, fv FuncV, args []Value) (Value, bool) {
 		return nil, true
 	case "verifFairSelect":
 		in.fairSelect = args[0].(*Term).IsTrue()
+		return nil, true
+	case "verifResetLocks":
+		// forget earlier acquisitions: the next Lock/RLock of each mutex is "the first" again (P3 arming)
+		in.lockHist = map[string]int{}
 		return nil, true
 	case "verifNarrow":
 		// simplify a value under the facts known at this point: alternatives of pointer / interface
